@@ -61,8 +61,11 @@ def check_counts(scn, lines, info) -> list[str]:
     # batches completed after each op, from the dumps
     done = [int(l.split(" b=")[1].split(" ")[0]) for l in lines]
     b = done[0]
-    for op, after in zip(scn.ops, done[1:]):
+    for op, after, line in zip(scn.ops, done[1:], lines[1:]):
         if op[0] != "C":
+            continue
+        if line.startswith("raise:"):      # a call that failed (injected fault): how many batches it completed is C11's matter; later calls are judged on the recorded history
+            b = after
             continue
         ran = after - b
         expect = op[1]
@@ -88,10 +91,37 @@ def check_counts(scn, lines, info) -> list[str]:
     return errs
 
 
+def fault_after_zero(scn, rng) -> bool:
+    """a batch of >= 2 parameters whose loss evaluation fails at a later parameter after an earlier parameter of the *same* batch got a loss that
+    rounds to zero: that loss never enters the history, so it must not stop a later call"""
+    n = len(scn.lineup)
+    sizes = [bs for (_, bs, _, _) in scn.lineup]
+    total = sum(o[1] for o in scn.ops if o[0] == "C")
+    cands = [fb for fb in range(max(total, 1)) if sizes[fb % n] >= 2 and len(scn.lineup[fb % n][2]) > fb // n]
+    if not cands:
+        return False
+    fb = rng.choice(cands[:4])
+    bs = sizes[fb % n]
+    r = rng.randint(1, bs - 1)
+    k = sum(sizes[b % n] for b in range(fb)) + r
+    rows = scn.lineup[fb % n][2][fb // n]
+    target = tuple(rows[rng.randrange(0, r)])
+    h = 0.5 * 10.0 ** (-scn.conv)
+    for th, v in list(scn.loss_table.items()):
+        if rounds_to_zero(float(v), scn.conv) is not False:
+            scn.loss_table[th] = 1.0 + 2.0 * h
+    if any(tuple(row) == target for b in range(fb) for row in (scn.lineup[b % n][2][b // n] if len(scn.lineup[b % n][2]) > b // n else [])):
+        return False          # the same vector is proposed (and recorded) earlier: the run would rightly stop there
+    scn.loss_table[target] = rng.choice([0.0, h / 3, -h / 3])
+    scn.faults = [("L", k)]
+    scn.ops = [o for o in scn.ops if o[0] == "C"] + [("C", rng.randint(2, 3))]
+    return True
+
+
 def run(chk: Check):
     rng = chk.rng
     chk.rule = ("stub scenarios with convergence precision 0-12 (and none), loss tables seeded with 0, +-0.5*10^-p, one ulp either side, "
-                "0.4*10^-p, -0.0, inf; verbose on and off (twin runs), with and without folder (restore after return), several calibrate calls. "
+                "0.4*10^-p, -0.0, inf; verbose on and off (twin runs), with and without folder (restore after return), several calibrate calls; a loss evaluation failing mid-batch after a zero loss of the same batch, followed by further calls. "
                 "non-trivial = a call stopped early or a loss within a factor 10 of the threshold occurred")
     chk.trusted_base = ["Lean 4.33 kernel", "np.round(x,p) == 0  <=>  |fl(x*10^p)| <= 0.5 (numpy multiplies, rints, divides) — compared bit-for-bit each run",
                         "stubs of harness/vp/calharness.py"]
@@ -129,6 +159,8 @@ def run(chk: Check):
             chk.count("scheduler_or_samplers_replaced_between_calls")
         else:
             scn.ops = [o for o in scn.ops if o[0] == "C"]
+        if scn.conv is not None and i % 4 == 3 and all(o[0] == "C" for o in scn.ops) and fault_after_zero(scn, rng):
+            chk.count("loss_fails_mid_batch_after_a_loss_rounding_to_zero_then_more_calls")
         lines, info = run_one(chk, scn)
         cal = info["cal"]
         stopped_early = any(o[0] == "C" for o in scn.ops) and cal.current_batch_index < sum(o[1] for o in scn.ops if o[0] == "C")
